@@ -52,6 +52,9 @@ CLAIMED = {
  'C17': ('PBT: exhaustive sweep inner x transparent wrapper x depth (crossing every block-budget threshold) x ignore x named + 8 deep-input recursion families; closed-form expected values, reference interpreter, failing inputs',
          'Enumerated search: 7 inner expressions (literal, rule reference, template call, class, template parameter, let-bound name, symbolic count) x 12 wrapper kinds (incl. seeded mixtures) x depth 1..40 every and 45..120 (quick) / 1..130 every (thorough) x with/without ignore x named/unnamed; each case must compile, return the closed-form wrapped value (reference interpreter as second voice up to depth 40) and reject a failing input with ParseError/PartialParseError; whether code was split into helper functions is measured from include_source. Deep inputs: plain rule, class, templates (value and parser argument), ignore, named, operator-table mixfix row, right-recursive list at depth 10^4 (quick) / 10^5 (thorough), results checked iteratively, no RecursionError.',
          'F28 (bound names inside split helpers) and F29 (Grammar() recursion at ~240 AST levels) excluded, witnesses replayed.'),
+ 'C18': ('PBT (stateful): hypothesis RuleBasedStateMachine over parse / raising-callback / nested-parse / Grammar() histories on three modules; harness-owned thread schedules at callback granularity; free-running stress; model = pristine module',
+         'Generated-history search: a rule-based state machine issues parse calls (any entry, pos, fullparse), parses whose inline-Python callback raises, parses whose callback starts a nested parse on the same or another module (dropped, embedded as data, or embedding the nested result objects), and Grammar() of an extension, of another description under an existing name, and of an unrelated grammar; hypothesis-drawn schedules interleave 2-3 threaded parses at every callback point with semaphores owned by the check; a free-running 16-thread stress runs at switch interval 1e-6. Every outcome (value, every span with line/column, error position and message) must equal the same call on a pristine module; texts include same-length variants so that state keyed by length collides.',
+         'Schedules are controlled at callback points only; finer preemption only probabilistically (stress). A mismatch observed against the model that does not reproduce in a fresh replay is still reported (isolation failures may depend on ids/hashes/timing).'),
  'C19': ('PBT: one AST rendered twice (canonical fully parenthesised vs. random constructor/operator spellings, signs, separators, comments, line breaks, quotes, MINIMAL parentheses, bare start expression); differential between the renderings + reference interpreter on the AST',
          'Generated-input search: rich, core and grouping-focused ASTs (all binary operators of every precedence level mixed with postfix forms) are rendered canonically and with every documented alternative spelling and layout drawn at random, including minimal parenthesisation computed from the precedence table of the statement; both descriptions must compile and agree on every entry and all inputs of length <= 4 plus longer ones, and the reference interpreter evaluated on the AST must agree too, so the two renderings cannot agree on a wrong grouping.',
          'Constructor forms never get bare inline-Python operands (documented exception); let is always parenthesised.'),
